@@ -612,6 +612,52 @@ def hypothesis_case(acc, case):
                  {"LR": lr, "null_lnL": float(res.null.lnL), "alt_lnL": float(res.alt.lnL), "models": what})
 
 
+def run_binned(spec, acc):
+    """functions with rate classes whose rates are free (a hidden partition parameter the optimiser varies): what the
+    optimiser found is what the function holds afterwards"""
+    import numpy
+
+    for model, kw, nbins in (("HKY85", {"ordered_param": "rate", "distribution": "free"}, 2),
+                             ("HKY85", {"ordered_param": "rate", "distribution": "free"}, 3),
+                             ("HKY85", {"ordered_param": "kappa", "distribution": "free"}, 2),
+                             ("F81", {"ordered_param": "rate", "distribution": "gamma"}, 4)):
+        for limit in spec["limits"]:
+            case = {"part": "binned", "model": model, "kw": kw, "bins": nbins, "max_evaluations": limit}
+            acc.case(case, nontrivial=True)
+            what = f"{model} with {nbins} rate classes ({kw['distribution']}, ordered by {kw['ordered_param']})"
+            try:
+                from cogent3 import get_model, make_aligned_seqs, make_tree
+
+                tree = make_tree(TREES[3])
+                aln = make_aligned_seqs({k: v for k, v in NUC_ALNS[0].items() if k in tree.get_tip_names()}, moltype="dna")
+                lf = get_model(model, **kw).make_likelihood_function(tree, bins=nbins)
+                lf.set_alignment(aln)
+                before = float(lf.lnL)
+                # an explicit calculator round trip
+                calc = lf.make_calculator()
+                x = numpy.array(calc.get_value_array(), float)
+                lo, up = (numpy.array(v, float) for v in calc.get_bounds_vectors())
+                step = 0.03 * (1 + numpy.arange(len(x)))
+                x2 = numpy.where(x + step <= up, x + step, numpy.where(x - step >= lo, x - step, x))
+                want = float(calc(x2))
+                lf.update_from_calculator(calc)
+                got = float(lf.lnL)
+                if not abs(got - want) <= TOL * max(1.0, abs(want)):
+                    acc.fail("update_from_calculator: lnL of the function differs from the value the calculator reported [rate classes]", case,
+                             {"function": got, "calculator": want, "model": what})
+                start = float(lf.lnL)
+                opt = {"local": True, "max_evaluations": limit, "limit_action": "ignore", "show_progress": False}
+                lf.optimise(**opt)
+                after = float(lf.lnL)
+            except Exception as e:  # noqa: BLE001
+                acc.fail(f"function with rate classes: raised {type(e).__name__}", case, {"error": str(e)[:300], "model": what})
+                continue
+            acc.outcome((what, limit, round(after - start, 3)))
+            if not after >= start - TOL:
+                acc.fail("optimise local=True: lnL after optimisation is lower than before [rate classes]", case, {"before": start, "after": after, "model": what})
+    acc.sample({"binned": True}, "binned")
+
+
 def run_fits(spec, acc):
     null, alt, alt_kw, _why = spec["pair"]
     for local in (True, None):
@@ -675,6 +721,7 @@ def shards(tier, seed):
         for pair in CODON_PAIRS:
             out.append({"part": "fits", "pair": list(pair), "tree": 3, "codon": True, "limits": [1, 5, 25],
                         "seeds": b["c_seeds"][:1]})
+    out.append({"part": "binned", "limits": [x for x in b["c_max_evaluations"] if x is not None]})
     return out
 
 
@@ -687,7 +734,7 @@ def get_param_count(model):
 
 def run_shard(spec, acc):
     {"pairs": run_pairs, "scoping": run_scoping, "scoped_null": run_scoped_null, "length_scoping": run_length_scoping, "wrapper": run_wrapper,
-     "fits": run_fits}[spec["part"]](spec, acc)
+     "fits": run_fits, "binned": run_binned}[spec["part"]](spec, acc)
 
 
 def replay(case):
@@ -708,6 +755,8 @@ def replay(case):
         fit_case(acc, case)
     elif part == "hypothesis":
         hypothesis_case(acc, case)
+    elif part == "binned":
+        run_binned({"limits": [case["max_evaluations"]]}, acc)
     return [(sig, rec["cases"][0]["detail"]) for sig, rec in acc.failures.items()]
 
 
